@@ -122,9 +122,16 @@ CHECKS = {
          "(C07_get_*, C07_set_*), type stability, set/get round trips, int64-into-int exactly when the value fits, mismatch atomicity and "
          "the accessor families as compositions; tied to lib/libconfig.c by correspondence over the boundary-value grid "
          "(0, ±1, INT_MIN/MAX±1, 2^24+1, 2^53+1, LLONG_MIN/MAX, fractional and huge doubles) through direct, by-name, by-path and by-index accessors, "
-         "with sentinels detecting writes to the output variable on failure."),
-   note=TB + "Float→integer casts outside the target range are undefined in C and are excluded on both sides ('unspec').",
-   technique='equational theorems over all values in Lean 4 + differential correspondence on the boundary grid', ref='§5 C07'),
+         "with sentinels detecting writes to the output variable on failure. The bodies of the conversion functions themselves "
+         "(__config_setting_get_int/int64/float, config_setting_set_int/int64/float/bool/format, get_bool, get_format, is_scalar/aggregate, "
+         "the option / tab-width / precision accessors: 21 functions) are TRANSLATED from clang's typed AST on every run into a deep embedding "
+         "(Generated/CSource.lean), executed by a C-subset semantics with the value union as one 64-bit cell (CSrc.lean), and proved to refine "
+         "the model functions for every setting, union content, option word and argument (Properties/CSource.lean, CS_*): for these "
+         "functions the tie to the source is a theorem, not a sample."),
+   note=TB + "Float→integer casts outside the target range are undefined in C and are excluded on both sides ('unspec'). tools/ctranslate.py and the "
+        "C-subset semantics of CSrc.lean (union layout little endian, two's complement wrap, both operands of && evaluated: the translated "
+        "expressions have no side effects) are part of the trusted base of the CS_* theorems.",
+   technique='equational theorems over all values in Lean 4 + refinement theorems about the translated C source of the accessors + differential correspondence on the boundary grid', ref='§5 C07'),
  'C08': dict(
    text=("Theorems for every spelling of the numeric rules' languages (sign, any digit string, L/LL): C08_parse_integer / C08_integer / "
          "C08_integer64 (decimal, or octal with a leading 0; int when it fits 32 bits, else int64, an L suffix forcing int64; rejected when "
